@@ -9402,6 +9402,12 @@ func (l *Lowerer) flattenConstCompose(handle ir.ExpressionHandle) ([]ir.Expressi
 					result = append(result, subComps...)
 				}
 			default:
+				// A vector-valued component that is not itself a Compose
+				// (e.g. a conversion vec2<u32>(vec2<bool>())) cannot be
+				// flattened into scalar handles.
+				if _, isVec := l.resolveExprTypeInner(comp).(ir.VectorType); isVec {
+					return nil, false
+				}
 				result = append(result, comp)
 			}
 		}
